@@ -404,257 +404,296 @@ func rules2BitTable(c *Ctx, r *Report, itonFn *ssa.Function, itonOf map[int64]in
 	funcs := c.moduleFuncs()
 	inits := c.initFuncsOf("sequtil")
 	c.ruleWhoMayWrite(r, "T-WMW", g, "sequtil", inits, funcs)
-	// find the copy into dnaFrom2bit[i][:]
-	var cp *ssa.Call
-	var initFn *ssa.Function
-	for f := range inits {
-		instrs(f, func(in ssa.Instruction) {
-			cl, ok := in.(*ssa.Call)
-			if !ok {
-				return
-			}
-			if b, ok := cl.Call.Value.(*ssa.Builtin); ok && b.Name() == "copy" {
-				if sl, ok := cl.Call.Args[0].(*ssa.Slice); ok {
-					if ia, ok := sl.X.(*ssa.IndexAddr); ok && isLoadOf(ia.X, g) {
-						cp, initFn = cl, f
-					}
-				}
-			}
-		})
-	}
-	// or the rows are written in place: dnaFrom2bit[i][p] = v
-	var direct *ssa.Store
-	if cp == nil {
+	mark := len(r.Obs)
+	tableByShape := func() {
+		// find the copy into dnaFrom2bit[i][:]
+		var cp *ssa.Call
+		var initFn *ssa.Function
 		for f := range inits {
 			instrs(f, func(in ssa.Instruction) {
-				if st, ok := in.(*ssa.Store); ok {
-					if ia, ok := st.Addr.(*ssa.IndexAddr); ok {
-						if row, ok := ia.X.(*ssa.IndexAddr); ok && isLoadOf(row.X, g) {
-							if direct != nil {
-								direct = nil // more than one: not the shape handled here
-								return
-							}
-							direct, initFn = st, f
+				cl, ok := in.(*ssa.Call)
+				if !ok {
+					return
+				}
+				if b, ok := cl.Call.Value.(*ssa.Builtin); ok && b.Name() == "copy" {
+					if sl, ok := cl.Call.Args[0].(*ssa.Slice); ok {
+						if ia, ok := sl.X.(*ssa.IndexAddr); ok && isLoadOf(ia.X, g) {
+							cp, initFn = cl, f
 						}
 					}
 				}
 			})
 		}
-	}
-	// or each row is the array a helper of the package returns for the row's index: table[i] = expand(i)
-	var rowCall *ssa.Call
-	var rowStore *ssa.Store
-	if cp == nil && direct == nil {
+		// or the rows are written in place: dnaFrom2bit[i][p] = v
+		var direct *ssa.Store
+		if cp == nil {
+			for f := range inits {
+				instrs(f, func(in ssa.Instruction) {
+					if st, ok := in.(*ssa.Store); ok {
+						if ia, ok := st.Addr.(*ssa.IndexAddr); ok {
+							if row, ok := ia.X.(*ssa.IndexAddr); ok && isLoadOf(row.X, g) {
+								if direct != nil {
+									direct = nil // more than one: not the shape handled here
+									return
+								}
+								direct, initFn = st, f
+							}
+						}
+					}
+				})
+			}
+		}
+		// or each row is the array a helper of the package returns for the row's index: table[i] = expand(i)
+		var rowCall *ssa.Call
+		var rowStore *ssa.Store
+		if cp == nil && direct == nil {
+			for f := range inits {
+				instrs(f, func(in ssa.Instruction) {
+					st, ok := in.(*ssa.Store)
+					if !ok {
+						return
+					}
+					ia, ok := st.Addr.(*ssa.IndexAddr)
+					if !ok || !isLoadOf(ia.X, g) {
+						return
+					}
+					cl, ok := st.Val.(*ssa.Call)
+					if !ok || len(cl.Call.Args) != 1 || cl.Call.Args[0] != ia.Index {
+						return
+					}
+					if h := cl.Call.StaticCallee(); h != nil && h.Blocks != nil && h.Pkg == f.Pkg && len(h.Params) == 1 {
+						rowCall, rowStore, initFn = cl, st, f
+					}
+				})
+			}
+		}
+		if cp == nil && direct == nil && rowCall == nil {
+			r.undecided("T-2BIT", where, "init-shape", c.pos(g.Pos()), "neither `copy(table[i][:], row)` nor a single in-place store `table[i][p] = v` found in an initialiser")
+			return
+		}
+		r.analysed(fname(initFn))
+		var pos string
+		var dstIdx ssa.Value
+		if cp != nil {
+			pos = c.pos(cp.Pos())
+			dstIdx = cp.Call.Args[0].(*ssa.Slice).X.(*ssa.IndexAddr).Index
+		} else if rowCall != nil {
+			pos = c.pos(rowStore.Pos())
+			dstIdx = rowStore.Addr.(*ssa.IndexAddr).Index
+		} else {
+			pos = c.pos(direct.Pos())
+			dstIdx = direct.Addr.(*ssa.IndexAddr).X.(*ssa.IndexAddr).Index
+		}
+		iphi, _ := dstIdx.(*ssa.Phi)
+		if iphi == nil {
+			r.undecided("T-2BIT", where, "outer loop", pos, "table row index is not a loop variable")
+			return
+		}
+		if why := fullByteLoop(iphi); why != "" {
+			r.violated("T-2BIT", where, "outer loop", c.pos(iphi.Pos()), "the initialiser does not visit every packed value 0..255: "+why)
+			return
+		}
+		// table size: the global is initialised with make(..., 256)
+		size := int64(0)
 		for f := range inits {
 			instrs(f, func(in ssa.Instruction) {
-				st, ok := in.(*ssa.Store)
-				if !ok {
-					return
-				}
-				ia, ok := st.Addr.(*ssa.IndexAddr)
-				if !ok || !isLoadOf(ia.X, g) {
-					return
-				}
-				cl, ok := st.Val.(*ssa.Call)
-				if !ok || len(cl.Call.Args) != 1 || cl.Call.Args[0] != ia.Index {
-					return
-				}
-				if h := cl.Call.StaticCallee(); h != nil && h.Blocks != nil && h.Pkg == f.Pkg && len(h.Params) == 1 {
-					rowCall, rowStore, initFn = cl, st, f
+				if st, ok := in.(*ssa.Store); ok && st.Addr == ssa.Value(g) {
+					if sl, ok := st.Val.(*ssa.Slice); ok {
+						size = isConstMake(sl)
+					} else if mk, ok := st.Val.(*ssa.MakeSlice); ok {
+						size, _ = cInt(constVal(mk.Len))
+					}
 				}
 			})
 		}
-	}
-	if cp == nil && direct == nil && rowCall == nil {
-		r.undecided("T-2BIT", where, "init-shape", c.pos(g.Pos()), "neither `copy(table[i][:], row)` nor a single in-place store `table[i][p] = v` found in an initialiser")
-		return
-	}
-	r.analysed(fname(initFn))
-	var pos string
-	var dstIdx ssa.Value
-	if cp != nil {
-		pos = c.pos(cp.Pos())
-		dstIdx = cp.Call.Args[0].(*ssa.Slice).X.(*ssa.IndexAddr).Index
-	} else if rowCall != nil {
-		pos = c.pos(rowStore.Pos())
-		dstIdx = rowStore.Addr.(*ssa.IndexAddr).Index
-	} else {
-		pos = c.pos(direct.Pos())
-		dstIdx = direct.Addr.(*ssa.IndexAddr).X.(*ssa.IndexAddr).Index
-	}
-	iphi, _ := dstIdx.(*ssa.Phi)
-	if iphi == nil {
-		r.undecided("T-2BIT", where, "outer loop", pos, "table row index is not a loop variable")
-		return
-	}
-	if why := fullByteLoop(iphi); why != "" {
-		r.violated("T-2BIT", where, "outer loop", c.pos(iphi.Pos()), "the initialiser does not visit every packed value 0..255: "+why)
-		return
-	}
-	// table size: the global is initialised with make(..., 256)
-	size := int64(0)
-	for f := range inits {
-		instrs(f, func(in ssa.Instruction) {
-			if st, ok := in.(*ssa.Store); ok && st.Addr == ssa.Value(g) {
-				if sl, ok := st.Val.(*ssa.Slice); ok {
-					size = isConstMake(sl)
-				} else if mk, ok := st.Val.(*ssa.MakeSlice); ok {
-					size, _ = cInt(constVal(mk.Len))
-				}
+		if pt, ok := g.Type().Underlying().(*types.Pointer); ok {
+			if arr, isArr := pt.Elem().Underlying().(*types.Array); isArr {
+				size = arr.Len()
 			}
-		})
-	}
-	if pt, ok := g.Type().Underlying().(*types.Pointer); ok {
-		if arr, isArr := pt.Elem().Underlying().(*types.Array); isArr {
-			size = arr.Len()
 		}
-	}
-	r.check(size >= 256, "T-2BIT", where, "size", c.pos(g.Pos()), fmt.Sprintf("table has %d rows", size), fmt.Sprintf("table has %d rows but is indexed by a byte", size))
-	// the source of the copy: a local 4-byte slice filled by the inner loop
-	var stores []*ssa.Store
-	evalFn := initFn          // where the row is computed
-	var iVal ssa.Value = iphi // what stands for the row index there
-	if rowCall != nil {
-		// in the helper: a local array filled by the inner loop and returned whole
-		h := rowCall.Call.StaticCallee()
-		evalFn, iVal = h, h.Params[0]
-		r.analysed(fname(h))
-		var arr *ssa.Alloc
-		okRet := true
-		instrs(h, func(in ssa.Instruction) {
-			if rt, ok := in.(*ssa.Return); ok {
-				ops := retOperands(rt)
-				ld, isLd := ops[0].(*ssa.UnOp)
-				if len(ops) != 1 || !isLd {
-					okRet = false
-					return
+		r.check(size >= 256, "T-2BIT", where, "size", c.pos(g.Pos()), fmt.Sprintf("table has %d rows", size), fmt.Sprintf("table has %d rows but is indexed by a byte", size))
+		// the source of the copy: a local 4-byte slice filled by the inner loop
+		var stores []*ssa.Store
+		evalFn := initFn          // where the row is computed
+		var iVal ssa.Value = iphi // what stands for the row index there
+		if rowCall != nil {
+			// in the helper: a local array filled by the inner loop and returned whole
+			h := rowCall.Call.StaticCallee()
+			evalFn, iVal = h, h.Params[0]
+			r.analysed(fname(h))
+			var arr *ssa.Alloc
+			okRet := true
+			instrs(h, func(in ssa.Instruction) {
+				if rt, ok := in.(*ssa.Return); ok {
+					ops := retOperands(rt)
+					ld, isLd := ops[0].(*ssa.UnOp)
+					if len(ops) != 1 || !isLd {
+						okRet = false
+						return
+					}
+					al, isAl := ld.X.(*ssa.Alloc)
+					if !isAl || (arr != nil && arr != al) {
+						okRet = false
+						return
+					}
+					arr = al
 				}
-				al, isAl := ld.X.(*ssa.Alloc)
-				if !isAl || (arr != nil && arr != al) {
-					okRet = false
-					return
-				}
-				arr = al
+			})
+			if !okRet || arr == nil {
+				r.undecided("T-2BIT", where, "init-shape", pos, "the row helper does not return a local array it filled")
+				return
 			}
-		})
-		if !okRet || arr == nil {
-			r.undecided("T-2BIT", where, "init-shape", pos, "the row helper does not return a local array it filled")
+			instrs(h, func(in ssa.Instruction) {
+				if st, ok := in.(*ssa.Store); ok {
+					if ia, ok := st.Addr.(*ssa.IndexAddr); ok && ia.X == ssa.Value(arr) {
+						stores = append(stores, st)
+					}
+				}
+			})
+		} else if cp != nil {
+			val := cp.Call.Args[1]
+			instrs(initFn, func(in ssa.Instruction) {
+				if st, ok := in.(*ssa.Store); ok {
+					if ia, ok := st.Addr.(*ssa.IndexAddr); ok && ia.X == val {
+						stores = append(stores, st)
+					}
+				}
+			})
+		} else {
+			stores = []*ssa.Store{direct}
+		}
+		if len(stores) != 1 {
+			r.undecided("T-2BIT", where, "inner loop", pos, fmt.Sprintf("expected one store into the row buffer, found %d", len(stores)))
 			return
 		}
-		instrs(h, func(in ssa.Instruction) {
-			if st, ok := in.(*ssa.Store); ok {
-				if ia, ok := st.Addr.(*ssa.IndexAddr); ok && ia.X == ssa.Value(arr) {
-					stores = append(stores, st)
-				}
-			}
-		})
-	} else if cp != nil {
-		val := cp.Call.Args[1]
-		instrs(initFn, func(in ssa.Instruction) {
-			if st, ok := in.(*ssa.Store); ok {
-				if ia, ok := st.Addr.(*ssa.IndexAddr); ok && ia.X == val {
-					stores = append(stores, st)
-				}
-			}
-		})
-	} else {
-		stores = []*ssa.Store{direct}
-	}
-	if len(stores) != 1 {
-		r.undecided("T-2BIT", where, "inner loop", pos, fmt.Sprintf("expected one store into the row buffer, found %d", len(stores)))
-		return
-	}
-	st := stores[0]
-	// inner loop variable: a phi in a loop that contains the store, other than iphi
-	var jphi *ssa.Phi
-	for _, b := range evalFn.Blocks {
-		for _, in := range b.Instrs {
-			if ph, ok := in.(*ssa.Phi); ok && ph != iphi && dependsOn(st.Addr.(*ssa.IndexAddr).Index, ph, map[ssa.Value]bool{}) {
-				jphi = ph
-			}
-		}
-	}
-	if jphi == nil {
-		r.undecided("T-2BIT", where, "inner loop", c.pos(st.Pos()), "row position does not depend on an inner loop variable")
-		return
-	}
-	// the values the inner loop variable takes: 0..3 upwards, 3..0 downwards, …
-	jvals, why := enumLoopVar(jphi)
-	if why != "" {
-		jl, why2 := findCountedLoop(jphi)
-		if why2 != "" {
-			r.undecided("T-2BIT", where, "inner loop", c.pos(jphi.Pos()), why2+" / "+why)
-			return
-		}
-		jn, ok := cInt(constVal(jl.bound))
-		if !ok || jn < 0 || jn > 64 {
-			r.undecided("T-2BIT", where, "inner loop", c.pos(jphi.Pos()), "inner loop bound is not a small constant")
-			return
-		}
-		jvals = nil
-		for v := int64(0); v < jn; v++ {
-			jvals = append(jvals, v)
-		}
-	}
-	if len(jvals) != 4 {
-		r.violated("T-2BIT", where, "inner loop", c.pos(jphi.Pos()), "the inner loop does not run over the 4 positions of a row")
-		return
-	}
-	// two-input transfer function over (i, j)
-	n := 256 * 4
-	dom := make([]int64, n)
-	it, jt := make([]aval, n), make([]aval, n)
-	for k := 0; k < n; k++ {
-		dom[k] = int64(k)
-		it[k], jt[k] = aval{true, int64(k / 4)}, aval{true, jvals[k%4]}
-	}
-	a := &vsa{c: c, f: evalFn, dom: dom, entry: st.Block(), region: map[*ssa.BasicBlock]bool{st.Block(): true},
-		preset:   map[ssa.Value][]aval{iVal: it, jphi: jt},
-		sliceTab: map[*ssa.Global][]int64{}, mapKeys: map[*ssa.Global]map[int64]bool{}, mapVals: map[*ssa.Global]map[int64]int64{}}
-	a.run()
-	if a.err != "" {
-		r.undecided("T-2BIT", where, "transfer function", c.pos(st.Pos()), a.err)
-		return
-	}
-	var rec *vsaStore
-	for i := range a.stores {
-		if a.stores[i].in == st {
-			rec = &a.stores[i]
-		}
-	}
-	if rec == nil {
-		r.undecided("T-2BIT", where, "transfer function", c.pos(st.Pos()), "store not evaluated")
-		return
-	}
-	bad := 0
-	example := ""
-	rows := map[int64]map[int64]int64{}
-	for k := 0; k < n; k++ {
-		i := int64(k / 4)
-		if !rec.idx[k].ok || !rec.val[k].ok {
-			r.undecided("T-2BIT", where, "transfer function", c.pos(st.Pos()), fmt.Sprintf("row position or value is not a function of (i, j) for i=%d j=%d", i, k%4))
-			return
-		}
-		if rows[i] == nil {
-			rows[i] = map[int64]int64{}
-		}
-		rows[i][rec.idx[k].v] = rec.val[k].v
-	}
-	for i := int64(0); i < 256; i++ {
-		for p := int64(0); p < 4; p++ {
-			want := int64("ACGT"[(i>>uint(6-2*p))&3])
-			got, ok := rows[i][p]
-			if !ok || got != want {
-				bad++
-				if example == "" {
-					example = fmt.Sprintf("row %d position %d is %s (set: %v), want %s", i, p, byteStr(int(got)), ok, byteStr(int(want)))
+		st := stores[0]
+		// inner loop variable: a phi in a loop that contains the store, other than iphi
+		var jphi *ssa.Phi
+		for _, b := range evalFn.Blocks {
+			for _, in := range b.Instrs {
+				if ph, ok := in.(*ssa.Phi); ok && ph != iphi && dependsOn(st.Addr.(*ssa.IndexAddr).Index, ph, map[ssa.Value]bool{}) {
+					jphi = ph
 				}
 			}
 		}
-	}
-	r.check(bad == 0, "T-2BIT", where, "entries", c.pos(st.Pos()), "for all 256 packed values, position p of the row is ACGT[(v >> (6-2p)) & 3]: first base in the most significant bits (1024 (value, position) points)", fmt.Sprintf("%d of 1024 row entries are wrong, e.g. %s", bad, example))
-	r.Extra["twobit_points_evaluated"] = n
+		if jphi == nil {
+			r.undecided("T-2BIT", where, "inner loop", c.pos(st.Pos()), "row position does not depend on an inner loop variable")
+			return
+		}
+		// the values the inner loop variable takes: 0..3 upwards, 3..0 downwards, …
+		jvals, why := enumLoopVar(jphi)
+		if why != "" {
+			jl, why2 := findCountedLoop(jphi)
+			if why2 != "" {
+				r.undecided("T-2BIT", where, "inner loop", c.pos(jphi.Pos()), why2+" / "+why)
+				return
+			}
+			jn, ok := cInt(constVal(jl.bound))
+			if !ok || jn < 0 || jn > 64 {
+				r.undecided("T-2BIT", where, "inner loop", c.pos(jphi.Pos()), "inner loop bound is not a small constant")
+				return
+			}
+			jvals = nil
+			for v := int64(0); v < jn; v++ {
+				jvals = append(jvals, v)
+			}
+		}
+		if len(jvals) != 4 {
+			r.violated("T-2BIT", where, "inner loop", c.pos(jphi.Pos()), "the inner loop does not run over the 4 positions of a row")
+			return
+		}
+		// two-input transfer function over (i, j)
+		n := 256 * 4
+		dom := make([]int64, n)
+		it, jt := make([]aval, n), make([]aval, n)
+		for k := 0; k < n; k++ {
+			dom[k] = int64(k)
+			it[k], jt[k] = aval{true, int64(k / 4)}, aval{true, jvals[k%4]}
+		}
+		a := &vsa{c: c, f: evalFn, dom: dom, entry: st.Block(), region: map[*ssa.BasicBlock]bool{st.Block(): true},
+			preset:   map[ssa.Value][]aval{iVal: it, jphi: jt},
+			sliceTab: map[*ssa.Global][]int64{}, mapKeys: map[*ssa.Global]map[int64]bool{}, mapVals: map[*ssa.Global]map[int64]int64{}}
+		a.run()
+		if a.err != "" {
+			r.undecided("T-2BIT", where, "transfer function", c.pos(st.Pos()), a.err)
+			return
+		}
+		var rec *vsaStore
+		for i := range a.stores {
+			if a.stores[i].in == st {
+				rec = &a.stores[i]
+			}
+		}
+		if rec == nil {
+			r.undecided("T-2BIT", where, "transfer function", c.pos(st.Pos()), "store not evaluated")
+			return
+		}
+		bad := 0
+		example := ""
+		rows := map[int64]map[int64]int64{}
+		for k := 0; k < n; k++ {
+			i := int64(k / 4)
+			if !rec.idx[k].ok || !rec.val[k].ok {
+				r.undecided("T-2BIT", where, "transfer function", c.pos(st.Pos()), fmt.Sprintf("row position or value is not a function of (i, j) for i=%d j=%d", i, k%4))
+				return
+			}
+			if rows[i] == nil {
+				rows[i] = map[int64]int64{}
+			}
+			rows[i][rec.idx[k].v] = rec.val[k].v
+		}
+		for i := int64(0); i < 256; i++ {
+			for p := int64(0); p < 4; p++ {
+				want := int64("ACGT"[(i>>uint(6-2*p))&3])
+				got, ok := rows[i][p]
+				if !ok || got != want {
+					bad++
+					if example == "" {
+						example = fmt.Sprintf("row %d position %d is %s (set: %v), want %s", i, p, byteStr(int(got)), ok, byteStr(int(want)))
+					}
+				}
+			}
+		}
+		r.check(bad == 0, "T-2BIT", where, "entries", c.pos(st.Pos()), "for all 256 packed values, position p of the row is ACGT[(v >> (6-2p)) & 3]: first base in the most significant bits (1024 (value, position) points)", fmt.Sprintf("%d of 1024 row entries are wrong, e.g. %s", bad, example))
+		r.Extra["twobit_points_evaluated"] = n
 
+	}
+	tableByShape()
+	{
+		undecided, violated := 0, 0
+		for _, o := range r.Obs[mark:] {
+			switch o.Verdict {
+			case Undecided:
+				undecided++
+			case Violated:
+				violated++
+			}
+		}
+		if undecided > 0 && violated == 0 {
+			// an initialiser of another shape (rows that are slices made in the loop, a helper stage, …): the table's
+			// content by constant folding of the package initialiser (E-FOLD), all 256 rows x 4 positions
+			if rows, why := c.foldedRows("sequtil", g); why != "" {
+				r.Obs[len(r.Obs)-1].Reason += "; constant folding of the initialiser: " + why
+			} else {
+				r.rollback(mark)
+				bad, example := 0, ""
+				for i := 0; i < 256 && i < len(rows); i++ {
+					for p := 0; p < 4; p++ {
+						want := int64("ACGT"[(i>>uint(6-2*p))&3])
+						if len(rows[i]) != 4 || rows[i][p] != want {
+							bad++
+							if example == "" {
+								example = fmt.Sprintf("row %d is %v, want position %d to be %s", i, rows[i], p, byteStr(int(want)))
+							}
+						}
+					}
+				}
+				pos := c.pos(g.Pos())
+				r.check(len(rows) >= 256, "T-2BIT", where, "size", pos, fmt.Sprintf("the folded table has %d rows", len(rows)), fmt.Sprintf("the folded table has %d rows but is indexed by a byte", len(rows)))
+				r.check(bad == 0, "T-2BIT", where, "entries", pos, "for all 256 packed values, the folded row is the four letters ACGT[(v >> (6-2p)) & 3], p = 0..3: first base in the most significant bits", fmt.Sprintf("%d of 1024 row entries of the folded table are wrong, e.g. %s", bad, example))
+			}
+		}
+	}
 	// DNAFrom2Bit appends the row of each source byte
 	f := c.fn("sequtil", "DNAFrom2Bit")
 	if f == nil {
@@ -677,6 +716,13 @@ func rules2BitTable(c *Ctx, r *Report, itonFn *ssa.Function, itonOf map[int64]in
 		okArg := false
 		var idxSym *Sym
 		if arg.Op == "slice" && arg.Args[1].String() == "_" && arg.Args[2].String() == "_" && arg.Args[0].Op == "index" && (arg.Args[0].Args[0].String() == "load(G:"+g.Name()+")" || arg.Args[0].Args[0].String() == "G:"+g.Name()) {
+			el := arg.Args[0].Args[1]
+			if el.Op == "load" && el.Args[0].Op == "index" && el.Args[0].Args[0].String() == "P1" {
+				okArg, idxSym = true, el.Args[0].Args[1]
+			}
+		}
+		// rows that are slices: the row itself
+		if arg.Op == "load" && len(arg.Args) == 1 && arg.Args[0].Op == "index" && arg.Args[0].Args[0].String() == "load(G:"+g.Name()+")" {
 			el := arg.Args[0].Args[1]
 			if el.Op == "load" && el.Args[0].Op == "index" && el.Args[0].Args[0].String() == "P1" {
 				okArg, idxSym = true, el.Args[0].Args[1]
